@@ -158,7 +158,7 @@ def run(ctx):
         "rule": "A: seeded op sequences on the public QueryHashCache (get_scoped, insert_with_k_scoped, insert_with_k_scoped_if_generation with current/stale generation, invalidate_doc, invalidate_for_insert x 3 metrics, clear, len, invalidation_generation) over dyadic-grid vectors (k/16 and 8k/16, i.e. inside and well outside the unit box, dims 1-8 and 33-40 to cross the 32-dim prefix, plus same-cell off-grid queries, large-component queries built from {5,3,2,7,-4,1e6,-1e6,100.5,32767,40000} incl. the old witness pair [5,3]/[2,7], and vectors of another dimension), 1-3 scopes, capacities {1,2,4,12}, thresholds {1.0,0.9,0.5,0.0}, scan limit {2000,10}; every observation compared exactly with Model/QCache.v inside coqc. B: prefilter differential through the hook (grid rows must agree exactly; near-boundary rows measured). H: hash-key equality vs the quantised key. E: engine histories with SearchExecutionPath::CacheHit checked against a fresh uncached search. R: per round a persistent TieredEngine (FsyncPolicy::Always), one thread looping cache-enabled knn_search on a fixed query while the main thread performs one acknowledged write (insert exact/closer, overwrite closer/away, delete of the nearest); after join two cache-enabled searches must equal a fresh uncached one (stale round = class C07-store-after-invalidate); plus the deterministic order probe (a cold-tier-refused insert and a delete of an absent id leave the invalidation generation and the cache untouched, an accepted insert bumps it by exactly 2). A case is non-trivial when it is distinct and contains a cache hit after an intervening invalidation/write",
         "samples": (A.get("samples") or [])[:1] + ([E.get("sample")] if E.get("sample") else []),
         "histogram": {"cache_ops": A.get("histogram"), "prefilter": B.get("histogram"),
-                      "engine": {k: E.get(k) for k in ("histories", "searches", "cache_hits", "cache_hits_after_intervening_write", "reference_live_set_mismatch")},
+                      "engine": {k: E.get(k) for k in ("histories", "searches", "cache_hits", "cache_hits_after_intervening_write", "reference_live_set_mismatch", "injected_cold_record_losses", "drift_repairs_from_mirror")},
                       "hash_pairs": H},
         "op_sequences_validated_against_impl": r["A_n"],
         "model_disagreements": len(r["A_bad"]),
